@@ -540,6 +540,60 @@ func synthInputs(mp *onnx.ModelProto) (gonnx.Tensors, bool) {
 	return in, true
 }
 
+// synthEmptyInputs: like synthInputs, with every dynamic axis of extent ZERO (an empty batch). ok is false when no
+// input has a dynamic axis or the tensor library cannot build such a tensor.
+func synthEmptyInputs(mp *onnx.ModelProto) (in gonnx.Tensors, ok bool) {
+	defer func() {
+		if recover() != nil {
+			in, ok = nil, false
+		}
+	}()
+	inits := map[string]bool{}
+	for _, i := range mp.GetGraph().GetInitializer() {
+		inits[i.GetName()] = true
+	}
+	in = gonnx.Tensors{}
+	empty := false
+	for _, vi := range mp.GetGraph().GetInput() {
+		if inits[vi.GetName()] {
+			continue
+		}
+		tt := vi.GetType().GetTensorType()
+		shape := []int{}
+		n := 1
+		for _, d := range tt.GetShape().GetDim() {
+			e := int(d.GetDimValue())
+			if e < 0 || e > 1<<12 {
+				return nil, false
+			}
+			n *= e
+			shape = append(shape, e)
+		}
+		if n != 0 || len(shape) == 0 {
+			v := &val.V{DT: val.Float32, Shape: shape, Bits: make([]uint64, n)}
+			if len(shape) == 0 {
+				v.Bits = make([]uint64, 1)
+			}
+			in[vi.GetName()] = v.Tensor()
+			continue
+		}
+		empty = true
+		var backing interface{} = []float32{}
+		switch val.DT(tt.GetElemType()) {
+		case val.Float64:
+			backing = []float64{}
+		case val.Int64:
+			backing = []int64{}
+		case val.Int32:
+			backing = []int32{}
+		case val.Bool:
+			backing = []bool{}
+		}
+		in[vi.GetName()] = tensor.New(tensor.WithShape(shape...), tensor.WithBacking(backing))
+	}
+	return in, empty
+}
+
 type verdict struct {
 	sig  string
 	what string
@@ -735,6 +789,21 @@ func check18(c *Case, env *Env) []verdict {
 			ro = o2
 			if st != nil {
 				st.Probe("unknown_operator_answer_changed_on_a_later_run")
+			}
+		}
+	}
+	if first == 0 {
+		// the same question with an EMPTY batch (every dynamic axis 0): no shortcut for "nothing to compute" may come
+		// before the operators are resolved. Only asked when the unknown node is the first one (an implemented node in
+		// front of it might, on the pinned tree too, not cope with an empty tensor - not this property's business).
+		if in0, ok0 := synthEmptyInputs(mp); ok0 {
+			if o0 := guard(func() error { _, err := m.Run(in0); return err }); o0.kind == "ok" && rank(o0) > rank(ro) {
+				ro = o0
+				if st != nil {
+					st.Probe("unknown_operator_accepted_on_empty_batch")
+				}
+			} else if st != nil {
+				st.Probe("unknown_operator_asked_with_empty_batch")
 			}
 		}
 	}
